@@ -11,8 +11,8 @@ CHECK = {
  'level_note': 'Fake deterministic application (state root = hash chain; per-block events also for blocks without assets; generator-key rotations); blocks built by the harness from real node state; real Executer/Chain/pebble.',
  'technique': 'property-based testing (rapid): metamorphic apply+delete = identity, differential against a twin node',
  'assumptions': ['application state is scripted (C16 covers the real framework)', 'only blocks above the finalized height are deleted (C04)'],
- 'quick': [{'pkg': 'c05', 'run': 'TestApplyDelete|TestRegress', 'checks': 250, 'timeout': 600},
+ 'quick': [{'pkg': 'c05', 'run': 'TestApplyDelete|TestTieBreakReorg|TestRegress', 'checks': 250, 'timeout': 600},
            {'pkg': 'c05', 'run': 'TestDiffApplyRevert', 'checks': 4000, 'timeout': 600}],
- 'thorough': [{'pkg': 'c05', 'run': 'TestApplyDelete|TestRegress', 'checks': 2500, 'shards': 14, 'timeout': 2400},
+ 'thorough': [{'pkg': 'c05', 'run': 'TestApplyDelete|TestTieBreakReorg|TestRegress', 'checks': 2500, 'shards': 14, 'timeout': 2400},
               {'pkg': 'c05', 'run': 'TestDiffApplyRevert', 'checks': 100000, 'shards': 2, 'timeout': 2400}],
 }
